@@ -113,6 +113,17 @@ pub broadcast proof fn lemma_le_len64(x: u64) ensures #[trigger] le64(x).len() =
 
 
 // ---------------------------------------------------------------------------------------
+// two's-complement negation: vstd specifies wrapping_add / wrapping_sub but not wrapping_neg; the
+// crate does not use it, behaviour-preserving rewrites of the checksum helpers do.  Assumed here,
+// proved over the full domain by the Kani harness `shim_wrapping_neg` (kani/lib.rs).
+pub assume_specification[ u8::wrapping_neg ](x: u8) -> (r: u8)
+    ensures r as int == (256 - x as int) % 256;
+pub assume_specification[ u16::wrapping_neg ](x: u16) -> (r: u16)
+    ensures r as int == (0x1_0000 - x as int) % 0x1_0000;
+pub assume_specification[ u32::wrapping_neg ](x: u32) -> (r: u32)
+    ensures r as int == (0x1_0000_0000 - x as int) % 0x1_0000_0000;
+
+// ---------------------------------------------------------------------------------------
 // refusal (D6): a diverging call; `r` is the function's permitted refusal condition
 
 #[verifier::external_body]
